@@ -18,9 +18,9 @@ MC_INVS = ['C06_Tiling', 'C06_EndLevels', 'C06_BinaryTree', 'C06_LmaxCovers', 'C
 def mc_cfg(c, invs):
     b = lambda x: 'TRUE' if x else 'FALSE'
     return ('SPECIFICATION Spec\nCONSTANTS D = %d\n LMIN = %d\n LMAX = %d\n LAT = %d\n VERSION = %d\n REBALANCE = %s\n SFN = %d\n SFD = %d\n'
-            ' BOUNDARY = %s\n MAXSTEPS = %d\n MAXSEL = %d\nCHECK_DEADLOCK FALSE\n' % (
+            ' BOUNDARY = %s\n MAXSTEPS = %d\n MAXSEL = %d\n SELDIMS = %s\nCHECK_DEADLOCK FALSE\n' % (
                 c['D'], c['lmin'], c['lmax'], LAT, c['version'], b(c['rebalancing']), c['sfn'], c['sfd'], b(c['boundary']),
-                c['steps'], c['maxsel']) + ''.join('INVARIANT %s\n' % i for i in invs))
+                c['steps'], c['maxsel'], '{' + ', '.join(str(d) for d in c.get('seldims', range(1, c['D'] + 1))) + '}') + ''.join('INVARIANT %s\n' % i for i in invs))
 
 
 def margin_fraction(m):
@@ -106,7 +106,7 @@ def strip(ev):
 
 
 def trace_cfg(run, lmax0):
-    m = margin_fraction(run.combi.margin)
+    m = margin_fraction(run.margin_req)
     sf = Fraction(run.cfg['safety']).limit_denominator(1000)
     return {'D': run.D, 'lmin': run.lmin, 'lmax': lmax0, 'version': run.cfg['version'], 'rebalancing': bool(run.cfg['rebalancing']),
             'boundary': bool(run.boundary), 'mnum': m.numerator, 'mden': m.denominator, 'sfn': sf.numerator, 'sfd': sf.denominator, 'lat': LAT,
@@ -116,8 +116,8 @@ def trace_cfg(run, lmax0):
 # ------------------------------------------------------------------------------------------------ scripted steps
 def benefits_for_selection(run, sel, rng, allow_zero=True):
     """integer benefits (0..10) whose selection under the run's margin is exactly `sel` (set of (d, i), 0-based)"""
-    m = margin_fraction(run.combi.margin)
-    mf = float(run.combi.margin)
+    m = margin_fraction(run.margin_req)
+    mf = float(run.margin_req)
     n = [len(run.intervals(d)) for d in range(run.D)]
     total = sum(n)
     if len(sel) == total and allow_zero and rng.random() < 0.3:
@@ -137,14 +137,14 @@ def benefits_for_selection(run, sel, rng, allow_zero=True):
 
 
 def selection_of(run, B):
-    m = margin_fraction(run.combi.margin)
+    m = margin_fraction(run.margin_req)
     mx = max([0] + [v for row in B for v in row])
     return {(d, i) for d in range(run.D) for i, v in enumerate(B[d]) if v * m.denominator >= m.numerator * mx}
 
 
 def random_benefits(run, rng):
-    m = margin_fraction(run.combi.margin)
-    mf = float(run.combi.margin)
+    m = margin_fraction(run.margin_req)
+    mf = float(run.margin_req)
     n = [len(run.intervals(d)) for d in range(run.D)]
     mode = rng.random()
     if mode < 0.1:
